@@ -41,6 +41,8 @@ def _datas(tier, seed):
     for shp in [(4, 3), (5, 2), (7, 4)]:
         for X in fam.generic_list(shp[0], shp[1], seed, 2 if tier == "quick" else 10):
             out.append(("G%dx%d" % shp, (np.array(X) + 0.75).tolist()))
+    # the same features at a tiny scale (kernel entries ~1e-12): an absolute cut-off in the code shows here
+    out.append(("G5x2-tiny", ((np.array(fam.generic_list(5, 2, seed, 1)[0]) + 0.75) * 1e-6).tolist()))
     return out
 
 
@@ -112,8 +114,8 @@ def check(case):
         s = np.trace(Kc) / n if wt else 1.0
         if wt and np.trace(Kc) < 1e-9 * max(np.trace(K), 1e-300):
             return r.skip("centred kernel has (numerically) zero trace")
-        kscale = max(1.0, float(np.abs(K).max()))
-        tol = 1e-9 * kscale / min(1.0, s)
+        kscale = float(np.abs(K).max()) if not wt else max(1.0, float(np.abs(K).max()) / max(s, 1e-300))
+        tol = 1e-9 * kscale
         kn = KernelNormalizer(with_center=wc, with_trace=wt)
         try:
             if case.get("used"):
@@ -171,7 +173,7 @@ def check(case):
     except Exception as e:
         return r.fail("crash:%s" % type(e).__name__, repr(e))
     r.states += 1
-    kscale = max(1.0, float(np.abs(Knm).max()))
+    kscale = float(np.abs(Knm).max()) if not wt else max(1.0, float(np.abs(Knm).max()) / max(float(np.sqrt(np.trace(Khat) / n)), 1e-300))
     if wc:
         cm = wn @ Kt
         if np.abs(cm).max() > 1e-9 * kscale / min(1.0, float(np.sqrt(np.trace(Khat) / n)) if wt else 1.0):
